@@ -305,7 +305,9 @@ func (f *OptionalField) DoRead(r io.ReadSeeker, pg Page) (io.Reader, []int, erro
 		if err != nil {
 			return nil, nil, err
 		}
-		f.Defs = append(f.Defs, defs[:int(ph.DataPageHeader.NumValues)]...)
+		// the last bit-packed run may be padded; only the first num_values levels belong to the page
+		defs = defs[:int(ph.DataPageHeader.NumValues)]
+		f.Defs = append(f.Defs, defs...)
 		l += l2
 
 		n := f.valsFromDefs(defs, uint8(f.MaxLevels.Def))
